@@ -213,11 +213,11 @@ PROPS = {
         trusted=REPL_TRUSTED, assumptions=["numeric fields below 2^40"],
     ),
     "C01": dict(
-        theorems=["HC.C01.live_refinement", "HC.C01.step_refines", "HC.C01.created", "HC.C01.created_refines", "HC.C01.reopen_refines", "HC.C01.history_invariants", "HC.C01.history_then_reopen", "HC.C01.reopen_then_continue",
+        theorems=["HC.C01.live_refinement", "HC.C01.step_refines", "HC.C01.created", "HC.C01.created_refines", "HC.C01.full_refinement", "HC.C01.full_refinement_from", "HC.C01.history_invariants", "HC.C01.history_then_reopen", "HC.C01.reopen_then_continue",
                   "HC.C01.entry_reopen", "HC.C01.header_reopen", "HC.C01.frame_reopen", "HC.C01.held_after", "HC.C01.refines_partial"],
         bridge_modules=["HC.Bridge.Oplog", "HC.Bridge.Stores"], bridging=OPLOG_BRIDGE + STORES_BRIDGE,
         runs=_c01_runs,
-        partial="proved on the model, unbounded: create, any sequence of append_batch/clear/get/has/info calls (flush cadence included), close, Hypercore::new on the four stores, any further calls - every observation equals the abstract block list + held set (live_refinement, history_then_reopen, reopen_then_continue; the oplog commit protocol composed with its byte layout, flushed tree/bitfield stores, replay). One close/reopen cycle per theorem: that the reopened core again satisfies the ghost invariant needed for a second reopen is not proved (validated by the run). Hypotheses: 32-byte non-zero digests, 64-byte signatures, 32-byte key and seed, fewer than 2^62 blocks, batches below 2^20 blocks, clear bounds below 2^64. What ties the model to the Rust is the correspondence run",
+        partial="proved on the model in full (full_refinement): for every history of append_batch/clear/get/has/info calls and close-and-reopen steps from a freshly created core, every observation equals the abstract block list + held set; the flush cadence, the oplog commit protocol and its byte layout, the flushed tree/bitfield stores and the replay on open are all inside the theorem. Hypotheses: 32-byte non-zero digests, 64-byte signatures, 32-byte key and seed, fewer than 2^62 blocks, batches below 2^20 blocks, clear bounds below 2^64. What ties the model to the Rust is the correspondence run (the label partial refers to that tie and to the hypotheses, not to an unproved part of the statement)",
         rule="histories over {append, batch 0..5, clear(start<end,start<len,end maybe beyond), get/has of any u64, info, reopen, probe}: bounded-exhaustive over a 10-symbol alphabet (full probe after each step), seeded-random long ones (blocks 0 B..70 KB), large cores crossing 8192/32768/65536; every observation and every storage operation (store, offset, bytes) is compared with the Lean model and with the harness's own list model. distinct = distinct full transcripts; non-trivial = at least 3 operations",
         trusted=LOG_TRUSTED, assumptions=["clear is called with start < end and start < length (the property's quantifier)",
                                           "live_refinement: hash functions return 32-byte digests that are never all zero (HashWF; an all-zero digest is the crate's 'blank' node) and lengths/byte totals stay below 2^64"],
